@@ -52,6 +52,7 @@ func checkC01(c *core.Ctx, r *core.Report) {
 		"(13) FLATTEN (shared with C16) — the per-key callback of the JSON flattener hands every key's value to a value handler on every successful path (no key, and for an object or array no subtree, is silently dropped from the stored event); " +
 		"(10) OPENSEG — the per-block bookkeeping of the open segment (column set, block summaries, block metadata) is extended on every call of updateUnrotatedBlockInfo, not only where the segment's record is created."
 	r.NotCovered = "value equality of the round trip, alignment of record i across columns as an outcome, dictionary cut-over at the cardinality limit, block/segment boundary handling, JSON flattening semantics (names, escapes), number/string consolidation results, zstd and checksum layers (C18)"
+	c01DictionaryComplete(c, r)
 
 	tags := c01TagArms(c, r)
 	c01EmitHandle(c, r, tags)
@@ -2006,4 +2007,137 @@ func checkDictionaryOffer(c *core.Ctx, r *core.Report, arms []tagArm) {
 			"this arm appends the record's value but does not register the record with the column's dictionary: in a dictionary-encoded block the record is listed under no word, the reader's per-record table keeps word 0 or a stale entry of an earlier block, and the event comes back with another event's value")
 	}
 	r.Floor("HANDLE", "value-appending arms of doLogEventFilling", nArm, 4)
+}
+
+// c01DictionaryComplete — clause DICTCOMPLETE.  At flush a column is written as a dictionary block when its dictionary
+// holds fewer than wipCardLimit words (`deCount < wipCardLimit`), and the reader then resolves every record through the
+// dictionary alone.  So the dictionary must know every record of such a column: in every function that registers a
+// record in DeData.deMap, each path to a return has either registered the record, or lies where the word count is known
+// to have reached the limit (the same test the flush makes), or has itself put the count to the limit (dictionary given
+// up for the block).  An early return for any other reason — a memory budget, a value kind — leaves records out of a
+// dictionary that is still used, and those records come back with another record's value.
+func c01DictionaryComplete(c *core.Ctx, r *core.Report) {
+	deCountF, deMapF := c.Field(pkgWriter, "DeData.deCount"), c.Field(pkgWriter, "DeData.deMap")
+	limit := c.Global(pkgWriter, "wipCardLimit")
+	isLoadOf := func(v ssa.Value, f *types.Var) bool {
+		ld, ok := v.(*ssa.UnOp)
+		if !ok || ld.Op != token.MUL {
+			return false
+		}
+		fa, ok := ld.X.(*ssa.FieldAddr)
+		return ok && core.FieldOfAddr(fa) == f
+	}
+	isLimit := func(v ssa.Value) bool {
+		ld, ok := v.(*ssa.UnOp)
+		return ok && ld.Op == token.MUL && ld.X == ssa.Value(limit)
+	}
+	n := 0
+	for _, fn := range c.RepoFunctions() {
+		if core.FnPkgPath(fn) != core.ModPath+"/"+pkgWriter || fn.Blocks == nil {
+			continue
+		}
+		// registers: a map update of deMap whose value is a []uint16 that was appended to
+		var regs []ssa.Instruction
+		for _, b := range fn.Blocks {
+			for _, in := range b.Instrs {
+				if mu, ok := in.(*ssa.MapUpdate); ok && isLoadOf(mu.Map, deMapF) {
+					regs = append(regs, in)
+				}
+			}
+		}
+		if len(regs) == 0 {
+			continue
+		}
+		// only the functions that take the record number to register (not the per-block reset / rebuild loops)
+		hasRecParam := false
+		for _, p := range fn.Params {
+			if bt, ok := p.Type().Underlying().(*types.Basic); ok && bt.Kind() == types.Uint16 {
+				hasRecParam = true
+			}
+		}
+		if !hasRecParam {
+			continue
+		}
+		// the per-record registration appends the record number it was given (`append(recs, recNum)`: the
+		// parameter is stored into the variadic array); a bulk registration (a loop that builds the list of
+		// earlier records, possibly none) is not what this clause is about
+		appendsParam := false
+		for _, b := range fn.Blocks {
+			for _, in := range b.Instrs {
+				if st, ok := in.(*ssa.Store); ok {
+					if p, ok := st.Val.(*ssa.Parameter); ok {
+						if bt, ok := p.Type().Underlying().(*types.Basic); ok && bt.Kind() == types.Uint16 {
+							if ia, ok := st.Addr.(*ssa.IndexAddr); ok {
+								if _, ok := ia.X.(*ssa.Alloc); ok {
+									appendsParam = true
+								}
+							}
+						}
+					}
+				}
+			}
+		}
+		if !appendsParam {
+			continue
+		}
+		inLoop := false
+		for _, l := range core.Loops(fn) {
+			for _, x := range regs {
+				if l.Body[x.Block()] {
+					inLoop = true
+				}
+			}
+		}
+		if inLoop {
+			continue
+		}
+		n++
+		isReg := map[ssa.Instruction]bool{}
+		for _, x := range regs {
+			isReg[x] = true
+		}
+		var bad *ssa.Return
+		core.WalkForwardEdges(fn, nil, func(in ssa.Instruction) bool {
+			if isReg[in] {
+				return false
+			}
+			if st, ok := in.(*ssa.Store); ok {
+				if fa, ok := st.Addr.(*ssa.FieldAddr); ok && core.FieldOfAddr(fa) == deCountF && isLimit(st.Val) {
+					return false // the dictionary is given up for this block
+				}
+			}
+			if ret, ok := in.(*ssa.Return); ok && bad == nil {
+				bad = ret
+			}
+			return true
+		}, func(from, to *ssa.BasicBlock) bool {
+			// the edge on which deCount < wipCardLimit is false
+			ifi, ok := core.LastIf(from)
+			if !ok {
+				return true
+			}
+			bo, ok := ifi.Cond.(*ssa.BinOp)
+			if !ok {
+				return true
+			}
+			switch {
+			case bo.Op == token.LSS && isLoadOf(bo.X, deCountF) && isLimit(bo.Y):
+				return to != from.Succs[1]
+			case bo.Op == token.GEQ && isLoadOf(bo.X, deCountF) && isLimit(bo.Y):
+				return to != from.Succs[0]
+			case bo.Op == token.GTR && isLimit(bo.X) && isLoadOf(bo.Y, deCountF):
+				return to != from.Succs[1]
+			case bo.Op == token.LEQ && isLimit(bo.X) && isLoadOf(bo.Y, deCountF):
+				return to != from.Succs[0]
+			}
+			return true
+		})
+		construct := shortFn(fn) + ":every-record-registered-unless-the-dictionary-is-full"
+		if bad != nil {
+			r.Violation("GUARD", construct, c.Pos(bad.Pos()), "a record can be left out of the column's dictionary while the dictionary is still below the cardinality limit: the block is then written as a dictionary block from an incomplete dictionary and the reader, which resolves records through the dictionary alone, returns another record's value for the ones left out")
+		} else {
+			r.OK("GUARD", construct, c.Pos(regs[0].Pos()), "every path registers the record, or lies where the word count has reached the limit")
+		}
+	}
+	r.Floor("GUARD", "functions registering a record in a column dictionary", n, 1)
 }
